@@ -545,9 +545,9 @@ pub fn big_wrapped(ctx: &Ctx, name: &str, st: &mut Local, f: mutspace::BSink) {
 
 pub fn run_c01(ctx: &Ctx, st: &mut Local) {
     let cfg = if ctx.quick() {
-        E9Cfg { full_wrappers: false, junk_pre: vec![0, 3, 6, 11, 16, 19, 21], junk_post: vec![0, 1, 8], odd: true, depth2: true, only_supported: false }
+        E9Cfg { full_wrappers: false, junk_pre: vec![0, 3, 6, 11, 16, 19, 21, 23], junk_post: vec![0, 1, 8], odd: true, depth2: true, only_supported: false }
     } else {
-        E9Cfg { full_wrappers: true, junk_pre: (0..23).collect(), junk_post: (0..16).collect(), odd: true, depth2: true, only_supported: false }
+        E9Cfg { full_wrappers: true, junk_pre: (0..24).collect(), junk_post: (0..16).collect(), odd: true, depth2: true, only_supported: false }
     };
     let mut f = |st: &mut Local, eng: &str, i: u64, c: &FileCase| {
         c01_check(ctx, st, eng, i, &c.bytes, true);
@@ -695,9 +695,9 @@ pub fn c06_check(ctx: &Ctx, st: &mut Local, eng: &str, idx: u64, c: &FileCase) {
 
 pub fn run_c06(ctx: &Ctx, st: &mut Local) {
     let cfg = if ctx.quick() {
-        E9Cfg { full_wrappers: false, junk_pre: vec![0, 1, 3, 6, 8, 11, 12, 15, 16, 17, 18, 19, 20, 21, 22], junk_post: vec![0, 1, 3, 10], odd: false, depth2: true, only_supported: true }
+        E9Cfg { full_wrappers: false, junk_pre: vec![0, 1, 3, 6, 8, 11, 12, 15, 16, 17, 18, 19, 20, 21, 22, 23], junk_post: vec![0, 1, 3, 10], odd: false, depth2: true, only_supported: true }
     } else {
-        E9Cfg { full_wrappers: true, junk_pre: (0..23).collect(), junk_post: (0..16).collect(), odd: false, depth2: true, only_supported: true }
+        E9Cfg { full_wrappers: true, junk_pre: (0..24).collect(), junk_post: (0..16).collect(), odd: false, depth2: true, only_supported: true }
     };
     let mut f = |st: &mut Local, eng: &str, i: u64, c: &FileCase| c06_check(ctx, st, eng, i, c);
     e9_filespace(ctx, "E9", &cfg, st, &mut f);
@@ -1917,12 +1917,20 @@ impl Write for ScriptWrite {
                 }
                 self.fail_at_offset = None;
                 self.injected = Some(k);
+                if k == 14 {
+                    return Ok(0);
+                }
                 return Err(mk_err(k, "injected write error"));
             }
         }
         let mut limit = self.max_per_call;
         for d in &self.devs {
             match *d {
+                // kind 14: the destination accepts nothing and says so with Ok(0) (a full fixed-size buffer)
+                Dev::Fail(n, 14) if n == call => {
+                    self.injected = Some(14);
+                    return Ok(0);
+                }
                 Dev::Fail(n, k) if n == call => {
                     self.injected = Some(k);
                     return Err(mk_err(k, "injected write error"));
@@ -2056,7 +2064,7 @@ pub fn run_c13(ctx: &Ctx, st: &mut Local) {
         for &c in &wcalls {
             singles.push((false, Dev::Short(c, 1)));
             singles.push((false, Dev::Short(c, 5)));
-            for k in [0u8, 2, 3, 4] {
+            for k in [0u8, 2, 3, 4, 14] {
                 singles.push((false, Dev::Fail(c, k)));
             }
         }
@@ -2116,7 +2124,7 @@ pub fn run_c13(ctx: &Ctx, st: &mut Local) {
             }
         }
         for &o in &woffs {
-            for k in [0u8, 2, 4, 5] {
+            for k in [0u8, 2, 4, 5, 14] {
                 scripts.push(IoScript { wfail_off: Some((o, k)), ..Default::default() });
                 if !ctx.quick() || o % 5 == 0 {
                     scripts.push(IoScript { wfail_off: Some((o, k)), rmax: 7, wmax: 3, ..Default::default() });
